@@ -86,6 +86,8 @@ Lemma sp_escape_not_bs u c r : (c =? 92)%N = false -> sp_escape u (c :: r) = SOk
 Proof. intros E. cbn [sp_escape]. unfold g_backslash. destruct r; rewrite E; reflexivity. Qed.
 Lemma syntax_character_is_syntax c : syntax_character c = is_syntax c.
 Proof. reflexivity. Qed.
+Lemma sp_brq_nil u ne : sp_brq u ne [] = SOk false [].
+Proof. unfold sp_brq. cbn [sp_braced starts_with]. rewrite andb_false_r. reflexivity. Qed.
 
 Ltac proj := cbn [rd strict uflag nflag liv lmin lmax lstr lkey lval laq ncap gnames brnames fst snd units idx nth_error andb orb negb length N.eqb Pos.eqb] in *.
 Ltac unfold_chars :=
@@ -167,10 +169,16 @@ Ltac absurd_hyp :=
       saturate H; cbn [orb andb negb] in H; discriminate H
   end.
 (* closed boolean facts that compute to a contradiction: tried only when a character has just become known *)
+Ltac small_fact t :=
+  lazymatch t with
+  | context [scan] => fail | context [local_ok] => fail | context [braces_small] => fail
+  | context [sp_braced] => fail | context [span_digits] => fail | context [dec_value] => fail
+  | _ => idtac
+  end.
 Ltac absurd_closed :=
   match goal with
-  | H : _ = true |- _ => vm_compute in H; discriminate H
-  | H : _ = false |- _ => vm_compute in H; discriminate H
+  | H : ?t = true |- _ => small_fact t; vm_compute in H; discriminate H
+  | H : ?t = false |- _ => small_fact t; vm_compute in H; discriminate H
   end.
 Ltac cleanup :=
   repeat match goal with
@@ -189,6 +197,7 @@ Ltac cleanup :=
          | H : (?c =? _)%N = true |- _ => is_var c; apply N.eqb_eq in H; subst c; try solve [exfalso; absurd_closed]
          | H : Some _ = Some _ |- _ => injection H as H
          | H : sp_quant _ _ ?l = SOk false ?r |- _ => is_var r; apply sp_quant_false in H; subst r
+         | H : sp_brq _ _ ?l = SOk false ?r |- _ => is_var r; pose proof (sp_brq_false _ _ _ _ H); subst r
          | H : sp_assertion _ ?l = SOk false ?r |- _ => is_var r; pose proof (sp_assertion_false_eq _ _ _ H); subst r
          | H : @eq unit _ _ |- _ => clear H
          | H : @eq N ?x ?y |- _ => first [is_var x; subst x | is_var y; subst y]
@@ -279,6 +288,7 @@ Ltac use_lemma c :=
   first [ eassert (L : SimR _ c _) by (eauto with sim) | eassert (L : SimP _ c _) by (eauto with sim) ];
   try (rewrite sp_escape_not_bs in L by (first [assumption | reflexivity]));
   try (change (sp_escape ?uu []) with (@SOk bool false []) in L);
+  try (rewrite sp_brq_nil in L);
   (* a backslash: look at the escaped unit before comparing the outcomes *)
   try match type of L with
       | SimR _ _ (sp_escape _ (92%N :: ?l)) => is_var l; destruct l; cleanup
@@ -329,9 +339,127 @@ Ltac tail :=
 Ltac go := repeat step; first [tail | finish].
 Ltac start F := intros; norm; unfold F, bind; prim.
 
+
+(* ---- decimal digit runs ---- *)
+Definition sat_step (z : Z) (c : N) : Z := sat_mul_add 10 z (digval c).
+Lemma digits_loop_dec st uf nf mn mx ls lk lvv lq nc gn bn us : forall l f i lv, skipn i us = l -> (length l < f)%nat ->
+  digits_loop f false (mkvst (mkreader us i) st uf nf lv mn mx ls lk lvv lq nc gn bn) =
+  Ok tt (mkvst (mkreader us (i + length (fst (span_digits l)))) st uf nf (fold_left sat_step (fst (span_digits l)) lv)
+               mn mx ls lk lvv lq nc gn bn).
+Proof.
+  induction l as [|c l IH]; intros f i lv Hl Hf; (destruct f as [|f]; [cbn in Hf; lia|]); cbn [digits_loop]; unfold cp; cbn [rd];
+    rewrite r_cp_skipn, Hl; cbn [nth_error span_digits].
+  - cbn [fst length fold_left]. rewrite Nat.add_0_r. reflexivity.
+  - change (is_digit c) with (decimal_digit c). destruct (decimal_digit c) eqn:Ec.
+    + pose proof (skipn_S_tl us i c l Hl) as Hl'.
+      unfold advance, set. cbn [rd units idx liv strict uflag nflag lmin lmax lstr lkey lval laq ncap gnames brnames].
+      unfold r_advance. rewrite r_cp_skipn. cbn [units idx]. rewrite Hl. cbn [nth_error].
+      rewrite (IH f (S i) _ Hl') by (cbn [length] in Hf; lia).
+      destruct (span_digits l) as [ds r']. cbn [fst length fold_left].
+      replace (S i + length ds)%nat with (i + S (length ds))%nat by lia. reflexivity.
+    + cbn [fst length fold_left]. rewrite Nat.add_0_r. reflexivity.
+Qed.
+Lemma sat_fold ds : forall a, fold_left sat_step ds (Z.min i64max (Z.of_N a)) = Z.min i64max (Z.of_N (fold_left dec_step ds a)).
+Proof.
+  induction ds as [|d ds IH]; intros a; [reflexivity|]. cbn [fold_left]. rewrite <- IH. f_equal.
+  unfold sat_step, sat_mul_add, sat64, digval, dec_step, i64max, i64min. lia.
+Qed.
+Lemma eat_decimal_digits_eq st uf nf lv mn mx ls lk lvv lq nc gn bn us i l : skipn i us = l ->
+  eat_decimal_digits (mkvst (mkreader us i) st uf nf lv mn mx ls lk lvv lq nc gn bn) =
+  Ok (negb (is_nil (fst (span_digits l))))
+     (mkvst (mkreader us (i + length (fst (span_digits l)))) st uf nf (Z.min i64max (Z.of_N (dec_value (fst (span_digits l)))))
+            mn mx ls lk lvv lq nc gn bn).
+Proof.
+  intros Hl. unfold eat_decimal_digits, bind, set. cbn [rd units idx liv strict uflag nflag lmin lmax lstr lkey lval laq ncap gnames brnames].
+  rewrite (digits_loop_dec _ _ _ _ _ _ _ _ _ _ _ _ us l) by
+    (first [exact Hl | unfold fuel_of, remaining, r_remaining; cbn [rd units idx]; rewrite (remaining_skipn us i l Hl); lia]).
+  change 0%Z with (Z.min i64max (Z.of_N 0)). rewrite sat_fold. fold (dec_value (fst (span_digits l))).
+  unfold pos. cbn [rd idx]. f_equal. destruct (fst (span_digits l)) as [|d0 ds0]; cbn [length is_nil negb]; [rewrite Nat.add_0_r, Nat.eqb_refl; reflexivity|].
+  destruct (Nat.eqb_spec (i + S (length ds0)) i); [lia|reflexivity].
+Qed.
+
+(* ---- the braced quantifier ---- *)
+Lemma skipn_app_drop {A} (us a b : list A) i : skipn i us = a ++ b -> skipn (i + length a) us = b.
+Proof.
+  revert i. induction a as [|x a IH]; intros i H; [rewrite Nat.add_0_r; exact H|].
+  cbn [length]. rewrite Nat.add_succ_r. apply (IH (S i)). apply (skipn_S_tl us i x). exact H.
+Qed.
+Lemma scan_drop ds r : Forall (fun c => (c =? 92) = false) ds -> scan false (ds ++ r) = true -> scan false r = true.
+Proof.
+  induction 1 as [|d ds Hd _ IH]; [trivial|]. cbn [app scan]. unfold g_backslash. rewrite Hd. intros H.
+  apply andb_true_iff in H. apply IH. apply H.
+Qed.
+Lemma digit_not_bs ds : Forall digit ds -> Forall (fun c => (c =? 92) = false) ds.
+Proof.
+  apply Forall_impl. intros c Hc. unfold digit, decimal_digit in Hc. apply andb_true_iff in Hc. destruct Hc as [_ Hc].
+  apply N.leb_le in Hc. apply N.eqb_neq. lia.
+Qed.
+Lemma is_nil_true {A} (l : list A) : is_nil l = true -> l = [].
+Proof. destruct l; [reflexivity|discriminate]. Qed.
+Lemma min_small n : (n <? bound_limit) = true -> Z.min i64max (Z.of_N n) = Z.of_N n.
+Proof. unfold bound_limit, i64max. intros H. apply N.ltb_lt in H. lia. Qed.
+
+Lemma eat_braced_quantifier_sim u ne s l : at_ u s l -> frag l ->
+  SimR (Post u s) (eat_braced_quantifier ne s) (sp_brq u ne l).
+Proof.
+  intros Ha Hf. unfold frag in Hf. unfold_hyps. destruct_states. cleanup.
+  unfold eat_braced_quantifier, sp_brq. unfold bind. prim.
+  destruct l as [|c r].
+  - simp. cbn [sp_braced starts_with]. rewrite andb_false_r. finish.
+  - simp. cbn [starts_with]. destruct (c =? 123) eqn:Ec.
+    2:{ cbn [sp_braced]. unfold g_lbrace. rewrite Ec. rewrite andb_false_r. finish. }
+    apply N.eqb_eq in Ec; subst c.
+    assert (Hb : braces_small (123 :: r) = true /\ scan false r = true).
+    { cbn [scan] in Hf. cbn [N.eqb Pos.eqb g_backslash] in Hf. unfold local_ok in Hf. cbn [N.eqb Pos.eqb g_lbrace] in Hf.
+      apply andb_true_iff in Hf. destruct Hf as [Hf1 Hf2]. split; [|exact Hf2]. apply andb_true_iff in Hf1. apply Hf1. }
+    destruct Hb as [Hb Hr]. unfold braces_small in Hb.
+    cbn [sp_braced] in *. cbn [N.eqb Pos.eqb g_lbrace] in *.
+    pose proof (skipn_S_tl _ _ _ _ H) as H1.
+    rewrite (eat_decimal_digits_eq _ _ _ _ _ _ _ _ _ _ _ _ _ _ _ r H1). proj.
+    destruct (span_digits_spec r) as [E1 [F1 N1]]. destruct (span_digits r) as [ds r1]. cbn [fst snd] in *.
+    destruct (is_nil ds) eqn:En; cbn [negb].
+    { apply is_nil_true in En. subst ds. rewrite andb_true_r. destruct ne, u; cbn [negb andb orb]; finish. }
+    pose proof (skipn_app_drop _ _ _ _ (eq_trans H1 E1)) as H2.
+    assert (Hr1 : scan false r1 = true) by (apply (scan_drop ds); [apply digit_not_bs; exact F1|rewrite <- E1; exact Hr]).
+    destruct r1 as [|c1 r2].
+    { simp. rewrite andb_true_r. destruct ne, u; cbn [negb andb orb]; finish. }
+    simp.
+    pose proof (skipn_S_tl _ _ _ _ H2) as H3.
+    unfold g_comma in *.
+    destruct (c1 =? 125) eqn:Ec1.
+    { apply N.eqb_eq in Ec1. subst c1.
+      assert (Hr2 : scan false r2 = true) by (apply (scan_drop [125]); [repeat constructor|exact Hr1]).
+      cbn [N.eqb Pos.eqb]. simp. rewrite Z.ltb_irrefl. rewrite andb_false_r.
+      cbn [bounds_ok]. rewrite N.leb_refl. cbn [negb]. rewrite andb_false_r. finish. }
+    destruct (c1 =? 44) eqn:Ec2.
+    2:{ simp. rewrite Ec1. rewrite andb_true_r. destruct ne, u; cbn [negb andb orb]; finish. }
+    assert (Hr2 : scan false r2 = true).
+    { apply N.eqb_eq in Ec2. subst c1. apply (scan_drop [44]); [repeat constructor|exact Hr1]. }
+    rewrite (eat_decimal_digits_eq _ _ _ _ _ _ _ _ _ _ _ _ _ _ _ r2 H3). proj.
+    destruct (span_digits_spec r2) as [E2 [F2 N2]]. destruct (span_digits r2) as [es r3]. cbn [fst snd] in *.
+    pose proof (skipn_app_drop _ _ _ _ (eq_trans H3 E2)) as H4.
+    assert (Hr3 : scan false r3 = true) by (apply (scan_drop es); [apply digit_not_bs; exact F2|rewrite <- E2; exact Hr2]).
+    destruct r3 as [|c3 r4].
+    { simp. rewrite andb_true_r. destruct ne, u; cbn [negb andb orb]; finish. }
+    simp. destruct (c3 =? 125) eqn:Ec3.
+    2:{ rewrite andb_true_r. destruct ne, u; cbn [negb andb orb]; finish. }
+    apply N.eqb_eq in Ec3. subst c3. pose proof (skipn_S_tl _ _ _ _ H4) as H5.
+    assert (Hr4 : scan false r4 = true) by (apply (scan_drop [125]); [repeat constructor|exact Hr3]).
+    apply andb_true_iff in Hb. destruct Hb as [Hb1 Hb2].
+    rewrite (min_small _ Hb1).
+    destruct (is_nil es) eqn:En2; cbn [negb bounds_ok].
+    { proj. replace (i64max <? Z.of_N (dec_value ds))%Z with false; [rewrite !andb_false_r; finish|].
+      symmetry. apply Z.ltb_ge. unfold bound_limit, i64max in *. apply N.ltb_lt in Hb1. lia. }
+    rewrite (min_small _ Hb2). proj.
+    replace (Z.of_N (dec_value es) <? Z.of_N (dec_value ds))%Z with (negb (dec_value ds <=? dec_value es)).
+    2:{ destruct (N.leb_spec (dec_value ds) (dec_value es)); cbn [negb]; symmetry; [apply Z.ltb_ge|apply Z.ltb_lt]; lia. }
+    destruct (negb ne && negb (dec_value ds <=? dec_value es)); finish.
+Qed.
+
+#[local] Hint Resolve eat_braced_quantifier_sim : sim.
 Lemma consume_quantifier_sim u nc s l : at_ u s l -> frag l ->
-  SimP (Post u s) (consume_quantifier nc s) (sp_quant l).
-Proof. start consume_quantifier. unfold eat_braced_quantifier, bind. prim. unfold sp_quant, is_quant_char. go. Qed.
+  SimR (Post u s) (consume_quantifier nc s) (sp_quant u nc l).
+Proof. start consume_quantifier. unfold sp_quant, is_quant_char, skip_lazy. go. Qed.
 #[local] Hint Resolve consume_quantifier_sim : sim.
 
 Lemma rs_atom_escape_sim u s l : at_ u s l -> frag l ->
@@ -357,8 +485,8 @@ Lemma assertion_sim u s l : disj_sim u -> at_ u s l -> frag l ->
 Proof. start assertion. unfold sp_assertion, sp_group_body, quantifiable, is_eq_or_bang, assertion_escape. go. Qed.
 #[local] Hint Resolve assertion_sim : sim.
 
-Lemma atom_sim u s l : disj_sim u -> at_ u s l -> frag l -> assertion_prefix l = false ->
-  SimR (Post u s) (atom disj s) (sp_atom u sdisj l).
+Lemma atom_sim s l : disj_sim true -> at_ true s l -> frag l -> assertion_prefix l = false ->
+  SimR (Post true s) (atom disj s) (sp_atom true sdisj l).
 Proof.
   start atom. unfold consume_character_class, uncapturing_group, capturing_group,
     consume_group_specifier, eat_group_name, bind. prim.
@@ -366,17 +494,17 @@ Proof.
 Qed.
 #[local] Hint Resolve atom_sim : sim.
 
-Lemma extended_atom_sim u s l : disj_sim u -> at_ u s l -> frag l -> assertion_prefix l = false ->
-  SimR (Post u s) (extended_atom disj s) (sp_atom u sdisj l).
+Lemma extended_atom_sim s l : disj_sim false -> at_ false s l -> frag l -> assertion_prefix l = false ->
+  SimR (Post false s) (extended_atom disj s) (sp_atom false sdisj l).
 Proof.
   start extended_atom. unfold consume_character_class, uncapturing_group, capturing_group,
-    consume_group_specifier, eat_group_name, eat_braced_quantifier, bind. prim.
-  unfold sp_atom, sp_group_body. go.
+    consume_group_specifier, eat_group_name, bind. prim.
+  unfold sp_atom, sp_group_body, extended_pattern_character. go.
 Qed.
 #[local] Hint Resolve extended_atom_sim : sim.
 
 Lemma term_sim u s l : disj_sim u -> at_ u s l -> frag l -> SimR (Post u s) (term disj s) (sp_term u sdisj l).
-Proof. start term. unfold sp_term. go. Qed.
+Proof. start term. unfold sp_term, sp_quantified. go. Qed.
 #[local] Hint Resolve term_sim : sim.
 
 Lemma alternative_sim u (Hd : disj_sim u) g : forall s l, at_ u s l -> frag l ->
@@ -391,7 +519,7 @@ Proof. induction g as [|g IH]; intros s l Ha Hf; [exact I|]. norm. cbn [bars sp_
 
 Lemma disjunction_body_sim u s l : disj_sim u -> at_ u s l -> frag l ->
   SimR (Post u s) (disjunction_body disj s) (sp_disjunction_body u sdisj l).
-Proof. start disjunction_body. unfold sp_disjunction_body. go. Qed.
+Proof. start disjunction_body. unfold sp_disjunction_body, starts_with. go. Qed.
 End KnotSim.
 
 Lemma disjunction_sim u f : forall s l, at_ u s l -> frag l ->
